@@ -189,6 +189,11 @@ class YowNoiseLayer(YowLayer):
         :rtype:
         """
         data = bytes(data) if type(data) is not bytes else data
+        # refuse what cannot be framed before it is encrypted: a frame carries at most 2**24 - 1 bytes and encryption adds a
+        # 16 byte tag. Encrypting first would use up a message number of the cipher for a frame that is never written, and
+        # the peer could not decrypt anything sent afterwards
+        if len(data) + 16 >= 16777216:
+            raise ValueError("data too large to write; length=%d" % len(data))
         self._wa_noiseprotocol.send(data)
 
     def _flush_incoming_buffer(self):
